@@ -102,14 +102,16 @@ def extract(all_targets=False, repo=REPO):
             rc, log = run_driver(repo, out_dir, os.path.join(CACHE, "target"), all_targets, ["mahf"])
             if rc != 0:
                 sys.stdout.write(log[-6000:])
-                raise SystemExit("ERROR: /repo does not build under the fact driver (exit %d); no verdict" % rc)
+                print("ERROR: /repo does not build under the fact driver (exit %d); no verdict" % rc)
+                sys.exit(2)
             with open(done, "w") as fh:
                 fh.write(th)
         files = sorted(glob.glob(os.path.join(out_dir, "*.json")))
         # the fact file's existence is asserted, never assumed
         libs = [f for f in files if os.path.basename(f).startswith("mahf-") and "-test" not in os.path.basename(f)]
         if not libs:
-            raise SystemExit("ERROR: no fact file for crate mahf was produced in %s" % out_dir)
+            print("ERROR: no fact file for crate mahf was produced in %s" % out_dir)
+            sys.exit(2)
         ordered = libs + [f for f in files if f not in libs]
         return th, ordered
 
